@@ -252,7 +252,11 @@ class LexicalParent(HasLabel, Generic[ChildType], ABC):
             msg = f"Could not find attribute '{key}' on {self.label} "
             msg += f"({self.__class__.__name__}) or among its children "
             msg += f"({self._children.keys()})."
-            matches = get_close_matches(key, self._children.keys(), cutoff=0.8)
+            matches = (
+                get_close_matches(key, self._children.keys(), cutoff=0.8)
+                if isinstance(key, str)
+                else []  # Only labels have look-alikes; other keys may not even be finite to iterate
+            )
             if len(matches) > 0:
                 msg += f" Did you mean '{matches[0]}' and not '{key}'?"
             raise AttributeError(msg) from key_error
